@@ -164,6 +164,7 @@ pub fn lanes_for(prop: &str, tier: &str, seed: u64) -> Vec<Scenario> {
             v.extend(gen::lane_fates(Tier::Lib, seed).into_iter().filter(|s| !s.script_mode));
             v.extend(gen::lane_faults(Tier::Lib, seed).into_iter().filter(|s| !s.script_mode));
             v.extend(gen_cli::lane_state(seed, if thorough { 20_000 } else { 1_500 }));
+            v.extend(gen_cli::lane_duo_state(seed, if thorough { 600 } else { 80 }));
             v.extend(gen_cli::lane_random(Tier::Cli, seed, n_rand_cli / 2, "C12"));
         }
         "C13" => {
